@@ -281,6 +281,19 @@ func c16Run(r *vkit.Run) {
 			}
 		}
 	}
+	// the default step is computed from the instants as given, fractions included (499.2 s is below the 500 s boundary)
+	for _, base := range []int64{1700000000, 1700000250} {
+		for _, spanMS := range []int64{499200, 500000, 499999, 500001, 250000, 249900, 749100, 750000} {
+			for _, off := range []int64{0, 900, 100} {
+				s0, e0 := base*1e9+off*1e6, base*1e9+off*1e6+spanMS*1e6
+				for _, st := range c16Spellings(s0)[:2] {
+					for _, en := range c16Spellings(e0)[:2] {
+						one(c16Input{Now: e0 + 3600*1e9, Start: sp(st), End: sp(en), WantStartNS: ip(s0), WantEndNS: ip(e0)}, true)
+					}
+				}
+			}
+		}
+	}
 	r.GlobalState("flag-combinations")
 	// reversed range (end before start): default step must still be 1s
 	one(c16Input{Now: now, Start: sp("1700000500"), End: sp("1700000000"), WantStartNS: ip(1700000500 * 1e9), WantEndNS: ip(1700000000 * 1e9)}, true)
@@ -457,6 +470,17 @@ func c16E2ERun(r *vkit.Run, one func(fn func(), nontrivial bool)) {
 					in := c16E2EInput{Args: []string{"--since=" + si, "--end=" + en, "--step=15s"}, StartSec: startSec, EndSec: endSec, WantLines: inside}
 					one(func() { c16E2ECheck(r, in) }, true)
 				}
+			}
+		}
+	}
+	// fractional instants: the daemon is asked for the whole second the instant lies in (never a later one)
+	for _, frac := range []int64{500, 900, 999} {
+		startSec, endSec := int64(1700000000), int64(1700000600)
+		_, inside := c16E2ERecords(startSec+2, endSec)
+		for _, st := range c16Spellings(startSec*1e9 + frac*1e6) {
+			for _, en := range c16Spellings(endSec*1e9 + frac*1e6) {
+				in := c16E2EInput{Args: []string{"--start=" + st, "--end=" + en}, StartSec: startSec, EndSec: endSec, WantLines: inside}
+				one(func() { c16E2ECheck(r, in) }, true)
 			}
 		}
 	}
